@@ -140,8 +140,7 @@ def tsc_parallel(
     if verbose and nthread > 1 and npartition < 2 * nthread:
         print(
             f'npartition {npartition} not large enough to use'
-            f' all {nthread} threads; should be 2*nthread',
-            stacklevel=2,
+            f' all {nthread} threads; should be 2*nthread'
         )
 
     def _check_dtype(a, name):
